@@ -20,7 +20,7 @@ INFO = dict(
               'instant with FailedFastError; reconnect attempts are spaced by non-decreasing delays never above the configured maximum (60 s); '
               'a request issued at least one maximum retry interval after the endpoint became reachable is served by it; no connect attempt '
               'happens after the client was closed.',
-  bounds={'quick': 'one endpoint, back-off constants = builder defaults (5 s, x^1.2, max 60 s), unreachable for up to 40 s starting in [0, 20] s, 2 probe requests; client closed at a symbolic instant while down, also while a (slow) connect attempt is in flight; a server that hangs (established connections silent, new ones refused for a symbolic while) with a call timing out into the silence',
+  bounds={'quick': 'one endpoint, back-off constants = builder defaults (5 s, x^1.2, max 60 s), unreachable for up to 40 s starting in [0, 20] s, and for 250-300 s (long-outage jobs: the back-off reaches its cap and stays there), 2 probe requests; client closed at a symbolic instant while down, also while a (slow) connect attempt is in flight; a server that hangs (established connections silent, new ones refused for a symbolic while) with a call timing out into the silence',
           'thorough': 'as quick with outages of up to 100 s (a two-endpoint scenario with overlapping outages under steady traffic was built - two_endpoints() - but does not finish within 30 min on 16 cores and is not registered)'},
   outside=['symbolic back-off parameters (exponentiation is out of reach of SMT; the defaults are concrete)', 'several endpoints failing independently',
            'flapping (more than one unreachable interval)'],
@@ -39,6 +39,8 @@ def jobs(tier):
     js.append(dict(name='%s-close-during-connect' % k, stack=k, sc='closeconn', cost=500, shards=4, shard_depth=2))
   for k in ('T', 'M'):
     js.append(dict(name='%s-hang' % k, stack=k, sc='hang', cost=1000, shards=8, shard_depth=4))
+    # an outage long enough for the back-off to reach its cap and stay there (defaults: 5, 6.9, 10.1, 16.1, 28.1, 54.9, 60, 60 s)
+    js.append(dict(name='%s-long-outage' % k, stack=k, sc='outage', mindur=250, maxdur=300, cost=3000, shards=16, shard_depth=4))
   return js
 
 
@@ -145,7 +147,7 @@ def make_body(job):
     e = stacks.setup()
     first = choose('down_at_first_connect', 2)
     u0 = 0 if first else fresh_real('outage_starts', 1, 20)
-    dur = fresh_real('outage_lasts', 0, job.get('maxdur', 40), lo_strict=True)
+    dur = fresh_real('outage_lasts', job.get('mindur', 0), job.get('maxdur', 40), lo_strict=True)
     u1 = u0 + dur
     t_base = vtime.now()
     script = netm.Script(plan=lambda i, p: ('reply', 0))
